@@ -330,6 +330,11 @@ def check_codec(pid, tier):
             sig = "%s|%s|%s" % (lang, prog["id"], kind)
             if sig not in failing:
                 failing[sig] = (v, prog)
+    # a failure while encoding into a USED buffer is a finding of its own only when the same (language, program) encodes
+    # correctly into a fresh one (otherwise it is the same defect seen again)
+    enc_bad = {(v.get("lang"), v["meta"]["prog"]) for v in verdicts if v["ev"] == "enc"}
+    for sig in [x for x, (v, prog) in failing.items() if v["ev"] == "encinto" and (v.get("lang"), v["meta"]["prog"]) in enc_bad]:
+        del failing[sig]
     # a failure on a reused receiver is a finding of its own only when the same cell does not already fail
     # on a fresh object (otherwise it is the same defect seen twice)
     for sig in [x for x in failing if x.endswith(":reused-receiver")]:
